@@ -23,7 +23,7 @@ case "$tests" in *"352 passed"*) ;; *) ok=0;; esac
 caught=""
 ran=""
 for c in "$@"; do
-  for tier in quick thorough; do
+  for tier in ${SEED_TIERS:-quick thorough}; do
     o=$(cd /verif && VERIF_REPO="$scratch/mut" timeout 3000 ./check "$c" "$tier" 2>&1); r=$?
     ran="$ran $c:$tier=$r"
     if [ $r -eq 1 ]; then caught="$caught $c:$tier"; echo "$o" | grep -A1 "^VIOLATION" | head -4; break; fi
